@@ -312,6 +312,7 @@ class Interpreter(BaseInterpreter[TContext, TEvent]):
         for actor in list(self._actors.values()):
             await actor.stop()
         self._actors.clear()
+        self._drop_own_system_ids()
 
         # ❌ Cancel all background tasks (timers, services) owned by this interpreter.
         await self.task_manager.cancel_all()
